@@ -175,7 +175,8 @@ def _coldef(toks: list[str]) -> tuple[str, str, bool]:
                 raise _Unsup("default " + t)
         else:
             raise _Unsup("column constraint " + toks[i])
-    decl = "%s|%d|%s|%d" % (" ".join(type_toks), notnull, dflt, 1 if pk else 0)
+    # SQLite reports its standard type names in upper case whatever the script's spelling: compare upper-cased
+    decl = "%s|%d|%s|%d" % (" ".join(type_toks).upper(), notnull, dflt, 1 if pk else 0)
     return name, decl, pk
 
 
